@@ -13,6 +13,9 @@ from mc.common import Stats
 ENDIANS = [None, 'big', 'little', 'network', 'local']
 CLASS_DEFAULTS = [None, 'big', 'little']
 POSITIONS = ['alone', 'first-same', 'first-opp', 'second-same', 'second-opp']
+# three-field neighbourhoods: the field under test at position 0/1/2, each neighbour one of
+#   's1' Int(1) of the same byte order, 's2' Int(2) same order, 'o2' Int(2) opposite order
+TRIPLES = ['%d:%s:%s' % (pos, a, b) for pos in (0, 1, 2) for a in ('s1', 's2', 'o2') for b in ('s1', 's2', 'o2')]
 
 
 def eff_big(end, cdef):
@@ -64,6 +67,14 @@ def configs(tier):
                             continue    # quick: the pairing matrix only for the spellings that change the default
                         for gen in (True, False):
                             out.append({'n': n, 'signed': signed, 'end': end, 'cdef': cdef, 'pos': pos, 'gen': gen})
+    # triples: vectorised runs are regrouped by byte order, the grouping depends on BOTH neighbours
+    for n in ([1, 2, 3, 4] if tier == 'quick' else [1, 2, 3, 4, 5, 8]):
+        for signed in (False, True):
+            for end, cdef in ((None, None), ('little', None), (None, 'little'), ('big', 'little'), ('local', 'big')):
+                for tr in TRIPLES:
+                    out.append({'n': n, 'signed': signed, 'end': end, 'cdef': cdef, 'pos': 'T' + tr, 'gen': True})
+                    if tier == 'thorough':
+                        out.append({'n': n, 'signed': signed, 'end': end, 'cdef': cdef, 'pos': 'T' + tr, 'gen': False})
     return out
 
 
@@ -77,7 +88,9 @@ def source(cfg):
         args.append('endianness=%r' % end)
     me = 'x = Int(%s)' % ', '.join(args)
     pos = cfg['pos']
-    if pos == 'alone':
+    if pos.startswith('T'):
+        lines = triple_layout(cfg, me)[0]
+    elif pos == 'alone':
         lines = [me]
     else:
         same = pos.endswith('same')
@@ -90,6 +103,23 @@ def source(cfg):
     if not cfg['gen']:
         opts.update(mk.GEN_ALL_OFF)
     return mk.class_src('K', lines, opts)
+
+
+def triple_layout(cfg, me=None):
+    """(field lines, [(name, nbytes, big)] in order) of a three-field neighbourhood"""
+    big = eff_big(cfg['end'], cfg['cdef'])
+    where, a, b = cfg['pos'][1:].split(':')
+    where = int(where)
+
+    def nb(kind, name):
+        width = 1 if kind == 's1' else 2
+        nbig = big if kind[0] == 's' else not big
+        return ('%s = Int(%d, endianness=%r)' % (name, width, 'big' if nbig else 'little'), (name, width, nbig))
+    n1, n2 = nb(a, 'y'), nb(b, 'z')
+    mine = (me, ('x', cfg['n'], big))
+    order = [n1, n2]
+    order.insert(where, mine)
+    return [o[0] for o in order], [o[1] for o in order]
 
 
 def decode_patterns(n, full2):
@@ -143,6 +173,9 @@ def check_config(cfg, st, full2):
     with mk.World() as w:
         K = w.module(src).K
         st.inc('programs')
+        if pos.startswith('T'):
+            check_triple(cfg, K, st, viol, big)
+            return
         alone = pos == 'alone'
         first = pos.startswith('first')
         nb_big = None if alone else (big if pos.endswith('same') else not big)
@@ -201,6 +234,44 @@ def check_config(cfg, st, full2):
             viol('encode-accepts', 'K(x=%r).pack() returned %r instead of raising PacketError' % (v, out), {'op': 'encode', 'value': v})
 
 
+def check_triple(cfg, K, st, viol, big):
+    n, signed = cfg['n'], cfg['signed']
+    _, layout = triple_layout(cfg, 'x')
+    nbvals = {'y': (b'\x12', b'\x12\x34'), 'z': (b'\xfe', b'\xfe\xdc')}
+    pats = decode_patterns(n, False) if n > 1 else [bytes([a]) for a in (0, 1, 0x7f, 0x80, 0xff)]
+    if n > 1:
+        pats = pats[::7] + [b'\x01' + b'\x00' * (n - 1), b'\x00' * (n - 1) + b'\x01', b'\x80' + b'\x00' * (n - 1), b'\xff' * n]
+    for pat in pats:
+        raw = b''
+        exp = {}
+        for name, width, fbig in layout:
+            if name == 'x':
+                raw += pat
+                exp['x'] = ref_decode(pat, signed, big)
+            else:
+                bs = nbvals[name][width - 1]
+                raw += bs
+                exp[name] = ref_decode(bs, False, fbig)
+        st.inc('evaluations')
+        try:
+            p = K.unpack(raw)
+            got = {k: getattr(p, k) for k in exp}
+        except Exception as e:
+            viol('decode-raises (three fields)', 'unpack(%r) raised %r' % (raw, e), {'op': 'decode', 'raw': raw})
+            return
+        if got != exp:
+            viol('decode-value (three fields)', 'unpack(%r) -> %r, expected %r' % (raw, got, exp), {'op': 'decode', 'raw': raw})
+            return
+        try:
+            out = K(**exp).pack()
+        except Exception as e:
+            out = e
+        if out != raw:
+            viol('encode-bytes (three fields)', 'K(%r).pack() = %r, expected %r' % (exp, out, raw), {'op': 'encode', 'value': exp['x']})
+            return
+    st.add('outcomes', ('t', n, signed, big, cfg['pos']))
+
+
 def _shard(shard, nshards, payload):
     st = Stats()
     cfgs = configs(payload['tier'])
@@ -225,7 +296,8 @@ def run(tier):
         'programs': st.n.get('programs', 0),
         'rule': 'every Int configuration (width x signed x 5 endianness spellings x 3 class defaults x 5 positions x generated/generic) as a real class; '
                 'decode: all 2^(8n) patterns for n<=2, lane-exhaustive (each byte lane all 256 values, others held at 00/ff/80/7f) above; '
-                'encode: all values n<=2, boundary set above, plus 9 values that must be rejected; '
+                'encode: all values n<=2, boundary set above, plus 9 values that must be rejected; three-field neighbourhoods (field at position 0/1/2, '
+                'neighbours Int(1)/Int(2) of the same or the opposite byte order) with the lane patterns thinned; '
                 'states = distinct (width, signedness, byte order, sign class of the value) outcome classes',
         'exhaustive': True,
         'bounds': {'widths': sorted({c['n'] for c in configs(tier)}), 'configs': len(configs(tier))},
